@@ -190,6 +190,57 @@ def walk_with_helpers(fn, tree):
                 todo.append(helpers[node.func.id])
 
 
+MUTABLE_CALLS = {"dict", "list", "set", "defaultdict", "OrderedDict", "deque", "Counter", "WeakKeyDictionary", "WeakValueDictionary", "WeakSet", "bytearray"}
+
+
+def process_global_state():
+    """every piece of process-wide mutable state of the package outside `_storage.py` (whose cells are classified one by
+    one) and outside the vendored typeguard: module-level dict / list / set displays and constructor calls, mutable class
+    attributes, names rebound through `global`, and memoising decorators. The checked path may only share state across
+    threads, calls and checks through what is listed here; a new entry is a new way for one check to influence another."""
+    import glob
+
+    def mutable(v):
+        if isinstance(v, (ast.Dict, ast.List, ast.Set, ast.ListComp, ast.DictComp, ast.SetComp)):
+            return True
+        if isinstance(v, ast.Call):
+            f = v.func
+            nm = f.id if isinstance(f, ast.Name) else f.attr if isinstance(f, ast.Attribute) else None
+            return nm in MUTABLE_CALLS
+        if isinstance(v, ast.Tuple):
+            return any(mutable(e) for e in v.elts)
+        return False
+
+    out = set()
+    for path in sorted(glob.glob(os.path.join(SRC, "*.py"))):
+        mod = os.path.basename(path)
+        if mod == "_storage.py":
+            continue
+        with open(path) as fh:
+            tree = ast.parse(fh.read())
+        for n in tree.body:
+            if isinstance(n, ast.Assign) and len(n.targets) == 1 and isinstance(n.targets[0], ast.Name) and mutable(n.value):
+                out.add(f"{mod}:{n.targets[0].id}:module")
+            if isinstance(n, ast.AnnAssign) and isinstance(n.target, ast.Name) and n.value is not None and mutable(n.value):
+                out.add(f"{mod}:{n.target.id}:module")
+            if isinstance(n, ast.ClassDef):
+                for m in n.body:
+                    if isinstance(m, ast.Assign) and len(m.targets) == 1 and isinstance(m.targets[0], ast.Name) and mutable(m.value):
+                        out.add(f"{mod}:{n.name}.{m.targets[0].id}:class")
+                    if isinstance(m, ast.AnnAssign) and isinstance(m.target, ast.Name) and m.value is not None and mutable(m.value):
+                        out.add(f"{mod}:{n.name}.{m.target.id}:class")
+        for n in ast.walk(tree):
+            if isinstance(n, ast.Global):
+                for nm in n.names:
+                    out.add(f"{mod}:{nm}:global")
+            if isinstance(n, (ast.FunctionDef, ast.AsyncFunctionDef)):
+                for d in n.decorator_list:
+                    t = ast.unparse(d)
+                    if "lru_cache" in t or t.endswith(".cache") or t == "cache":
+                        out.add(f"{mod}:{n.name}:cache")
+    return sorted(out)
+
+
 def storage_kinds():
     """every module-level assignment of jaxtyping/_storage.py whose value is a call:
     `threading.local()` -> threadLocal, anything else -> processGlobal"""
@@ -510,6 +561,7 @@ end JV.Generated
 """
     write_if_changed(os.path.join(GEN, "Rollback.lean"), txt)
 
+    facts.setdefault("process_global_state", process_global_state())
     cells = facts["storage_cells"]
     rows = ", ".join(f"({lean_str(k)}, {'true' if v == 'threadLocal' else 'false'})" for k, v in sorted(cells.items()))
     txt = f"""/- GENERATED by harness/extract.py from {SRC}/_storage.py on every run. Do not edit. -/
@@ -517,6 +569,10 @@ namespace JV.Generated
 
 /-- every module-level mutable cell of `_storage.py` with `true` iff it is a `threading.local()` -/
 def storageCells : List (String × Bool) := [{rows}]
+
+/-- every other piece of process-wide mutable state of the package (module-level containers, mutable class attributes,
+    names rebound through `global`, memoising decorators), as `file:name:kind` -/
+def processGlobalState : List String := {lean_list([lean_str(x) for x in facts['process_global_state']])}
 
 end JV.Generated
 """
